@@ -109,6 +109,10 @@ def gen_spec(rng, big=False):
         g["cls"] = "threshold"
         g["tick_ns"] = M.SEC // 1000
         g["mi_ns"] = rng.choice([500, 1500, 2000]) * (M.SEC // 1000)
+    if cls != "subsecond" and not big and g["seed"] % 6 == 2:
+        # thresholds of more than a day (25 hours, 3 days): the stored interval is the total, not a
+        # component of it
+        g["mi_ns"] = [90000, 259200][(g["seed"] // 6) % 2] * M.SEC
     if cls == "poles":
         g["cls"] = rng.choice(["random", "threshold"])
         g["region"] = rng.choice(["pole", "spole"])
@@ -297,6 +301,8 @@ def check_call(rec, coll, case, p, s, call, tag="collocate", datasets=None):
             iv_s = np.asarray(iv, dtype=float)
         for k, key in enumerate(got):
             dt_ns, d_km = info[key]
+            if dt_ns >= 86400 * M.SEC:
+                rec.count("collocate.pairs_a_day_or_more_apart")
             whole = dt_ns % M.SEC == 0
             if (whole and iv_s[k] * M.SEC != dt_ns) or (not whole and abs(iv_s[k] - dt_ns / 1e9) >= 1.0):
                 detail = {"why": "stored interval is not the pair's |dt|", "pair": key,
